@@ -349,9 +349,36 @@ fn render(m: &Model, rng: &mut Rng) -> String {
             s.push_str(&format!("        g{i}: {},\n", if i % 2 == 0 { format!("Vec<{p}>") } else { p.to_string() }));
         }
         s.push_str("    },\n");
+        // struct variants that mention a parameter only below the first level of a container, or only as a map key: the
+        // helper type still has to declare it (and a declared parameter is never given the type prefix)
+        for (vname, fields) in extra_struct_variants(m) {
+            s.push_str(&format!("    {vname} {{\n"));
+            for (fname, t) in fields {
+                s.push_str(&format!("        {fname}: {},\n", t.render(rng, true)));
+            }
+            s.push_str("    },\n");
+        }
         s.push_str("}\n\n");
     }
     s
+}
+
+/// (variant, [(field, type)]) of the additional struct variants of `Pchoice`; the map-key variant only for two parameters
+/// (TypeScript refuses generic map keys: those programs do not go to it)
+fn extra_struct_variants(m: &Model) -> Vec<(&'static str, Vec<(&'static str, Ty)>)> {
+    let first = Ty::Param(m.gparams[0].clone());
+    let last = Ty::Param(m.gparams[m.gparams.len() - 1].clone());
+    let mut v = vec![(
+        "Gdeep",
+        vec![
+            ("d0", Ty::Vec(Box::new(Ty::Vec(Box::new(first.clone()))))),
+            ("d1", Ty::Opt(Box::new(Ty::Map(Box::new(Ty::Prim("String")), Box::new(Ty::Vec(Box::new(last.clone()))))))),
+        ],
+    )];
+    if m.gparams.len() == 2 {
+        v.push(("Gkey", vec![("k0", Ty::Map(Box::new(last), Box::new(Ty::Prim("u8")))), ("k1", Ty::Prim("bool"))]));
+    }
+    v
 }
 
 fn enumerate_depth2() -> Vec<Ty> {
@@ -541,6 +568,34 @@ fn judge(case: &Case<Model>, rep: &mut Report) {
                 }
             }
             None => rep.violate(format!("C05|{lname}|generic-enum-missing"), "enum Pchoice not found under its (prefixed) name".to_string(), case.detail(json!(null))),
+        }
+        if let Some(c) = file.defs.iter().find(|d| d.name == format!("{prefix}Pchoice") && d.kind == DefKind::TaggedEnum).filter(|_| !matches!(case.lang, LangId::Go | LangId::Python)) {
+            for (vname, fields) in extra_struct_variants(m) {
+                let Some(v) = c.variants.iter().find(|v| v.ident.to_lowercase().contains(&vname.to_lowercase())) else { continue };
+                // inline object (TypeScript) or a helper type referred to with arguments
+                let (got, helper): (Vec<crate::ir::Field>, Option<&crate::ir::Def>) = match &v.payload {
+                    Payload::Struct(fs) => (fs.clone(), None),
+                    Payload::Newtype(TypeExpr::Name(hname, _)) => match file.defs.iter().find(|d| d.name == *hname && d.kind == DefKind::Struct) {
+                        Some(h) => (h.fields.clone(), Some(h)),
+                        None => continue,
+                    },
+                    _ => continue,
+                };
+                rep.count("deep_or_key_only_struct_variants_checked", 1);
+                if let Some(h) = helper {
+                    for p in &m.gparams {
+                        let mentioned = fields.iter().any(|(_, t)| format!("{:?}", t).contains(&format!("Param(\"{p}\")")));
+                        if mentioned && !h.generics.contains(p) {
+                            rep.violate(format!("C05|{lname}|generic-parameter-not-declared|struct-variant-helper"), format!("{} uses parameter {p} of the enum (variant {vname}) but declares <{}>", h.name, h.generics.join(", ")), case.detail(json!({"helper": h.name, "declared": h.generics, "parameter": p})));
+                        }
+                    }
+                }
+                for ((fname, t), f) in fields.iter().zip(got.iter()) {
+                    let _ = fname;
+                    // the outermost Option of a field may live in a marker (`?`, `= _`, Optional[..]) instead of the type
+                    check("struct-variant-field", t, &f.ty, &m.gparams, true, rep);
+                }
+            }
         }
     }
     for (i, p) in m.consts.iter().enumerate() {
@@ -760,6 +815,10 @@ pub fn run(ctx: &Ctx) -> (Spec, Report) {
             }
             // Go/Python do not support generic enums/aliases: programs with generic items go to the other four
             let _ = generic_items;
+            // the map-key-only variant exists for two parameters; the TypeScript and Python backends refuse generic map keys outright
+            if !m2.gpayloads.is_empty() && m2.gparams.len() == 2 {
+                langs.retain(|(l, _)| !matches!(l, LangId::Ts | LangId::Python));
+            }
             let mut r2 = Rng::new(src_rng_seed);
             let src = render(&m2, &mut r2);
             Gen { model: m2, files: vec![SrcFile { path: "src/lib.rs".into(), source: src }], multi: false, langs }
@@ -770,7 +829,7 @@ pub fn run(ctx: &Ctx) -> (Spec, Report) {
     rep.merge(keyword_named_types());
     let spec = Spec {
         level: "exploration",
-        rule: format!("all {} type expressions of depth <= 2 over {{14 primitives, (), user type, generic parameter, generic instance}} closed under Vec, [T;3], [T;0], &[T], Option, &T, 8 smart pointers, generic user type and HashMap with 7 key types (exhaustive, {} programs), plus random trees of depth <= 5; positions field / newtype payload / alias target / const type (a sixth of the fields and payloads given through `serialized_as` on an opaque Rust type) / generic alias, generic newtype struct and generic tagged-enum payload whose target mentions the item's own parameters (TS, Kotlin, Swift, Scala); random prefix and type_mappings tables (user types and generic bases for all backends, container instances for TS/Go/Python), path qualification varied; each use site is parsed back into a tree and compared with an independent reference translation under per-language JSON-category and integer-range tables; plus user types whose own names are Swift keywords (Type, Protocol, Any) referred to from 11 positions under 3 prefixes in Swift and Kotlin, where every spelling of the name in the output must be the declared one; distinct = (language, position, depth, outer constructor)", exh.len(), n_exh),
+        rule: format!("all {} type expressions of depth <= 2 over {{14 primitives, (), user type, generic parameter, generic instance}} closed under Vec, [T;3], [T;0], &[T], Option, &T, 8 smart pointers, generic user type and HashMap with 7 key types (exhaustive, {} programs), plus random trees of depth <= 5; positions field / newtype payload / alias target / const type (a sixth of the fields and payloads given through `serialized_as` on an opaque Rust type) / generic alias, generic newtype struct and generic tagged-enum payload whose target mentions the item's own parameters, struct variants that mention a parameter only at depth 2-3 or only as a map key (TS, Kotlin, Swift, Scala); random prefix and type_mappings tables (user types and generic bases for all backends, container instances for TS/Go/Python), path qualification varied; each use site is parsed back into a tree and compared with an independent reference translation under per-language JSON-category and integer-range tables; plus user types whose own names are Swift keywords (Type, Protocol, Any) referred to from 11 positions under 3 prefixes in Swift and Kotlin, where every spelling of the name in the output must be the declared one; distinct = (language, position, depth, outer constructor)", exh.len(), n_exh),
         assumptions: vec![
             "TypeScript has no nullable form at type level: an Option nested inside a container may translate to the bare element type".into(),
             "Go `int` and `uint` are taken at their guaranteed 32 bits; Python int is unbounded".into(),
